@@ -170,7 +170,17 @@ static void run_scenario(const Scenario& sc, const string& child) {
     } else {
       string got_err;
       {
-        Subprocess sp(cmd);
+        // R: the Subprocess object is REUSED - it first ran another child to completion (exit status 3), then the
+        // scenario's child is move-assigned into it
+        Subprocess sp;
+        if (sc.delay[0] == 'R') {
+          sp = Subprocess(vector<string>{child, "x:3"});
+          sp.wait();
+          for (int fd : {sp.stdin_fd(), sp.stdout_fd(), sp.stderr_fd()})
+            if (fd >= 0) __real_close(fd);
+          sp = Subprocess(cmd);
+        } else
+          sp = Subprocess(cmd);
         child_pid = sp.pid();
         if (sc.payload > 0)
           so = sp.communicate(payload.data(), payload.size(), sc.timeout_usecs);
@@ -307,6 +317,8 @@ int main(int argc, char** argv) {
     all.push_back({api, P{{"cat", 0}, {"rep", 0}, {"x", 0}}, 5000, false, 0, "Znone"});
     all.push_back({api, P{{"rall", 0}, {"rep", 0}, {"w1", 3000}, {"x", 0}}, 70000, false, 0, "Znone"});
   }
+  all.push_back({"communicate", P{{"cat", 0}, {"rep", 0}, {"x", 0}}, 5000, false, 0, "Rnone"});
+  all.push_back({"communicate", P{{"rall", 0}, {"rep", 0}, {"w1", 70000}, {"x", 5}}, 100000, false, 0, "Rnone"});
   // timeouts: a child that outlives the deadline is ended
   all.push_back({"run_process", P{{"w1", 10}, {"s", 5000}, {"x", 0}}, -1, false, 300000, "none"});
   all.push_back({"run_process", P{{"w1", 10}, {"s", 5000}, {"x", 0}}, -1, true, 300000, "none"});
